@@ -37,7 +37,7 @@ func init() {
 			"inputs are (i) uniform random strings of boundary lengths with protocol magic, (ii) every prefix of each well-formed seed message, (iii) boundary-aware mutations of seeds " +
 			"(8/16/32-bit fields at every offset set to boundary values in both byte orders, truncation, terminator removal, CR/LF at the end, growth to size classes). " +
 			"oracle: no panic / fatal error; bytes allocated by the call (runtime.MemStats.TotalAlloc delta, single goroutine, confirmed by re-measuring) <= 256 KiB. " +
-			"non-trivial = the target got past its first check (verdict was not an immediate no on the first bytes) or the input is a mutation of a valid message; distinct = hash(target, input). every matcher target is also evaluated as the second member of a matcher set behind a not matcher on a connection whose peer has 24 MiB waiting (verdict at once, same allocation bound); dns / rdp / winbox targets whose options are placeholders of an environment variable that is not set. loop children: a server whose routes hold every shipped stream matcher plus a route that stays undecided until 6000..8192 bytes have arrived; seed messages (and mutations) grown to 6-9 KiB arrive in segments of arbitrary sizes: the process survives every connection and every connection is finished.",
+			"non-trivial = the target got past its first check (verdict was not an immediate no on the first bytes) or the input is a mutation of a valid message; distinct = hash(target, input). every matcher target is also evaluated as the second member of a matcher set behind a not matcher on a connection whose peer has 24 MiB waiting (verdict at once, same allocation bound); dns / rdp / winbox targets whose options are placeholders of an environment variable that is not set. every matcher is also evaluated from an instance whose configuration was unloaded before (released targets). retention runs: the first seeds a target matches are evaluated 100000 times each from different client addresses; the live heap after two collections must not grow by more than 60 bytes per connection in three bursts in a row. loop children: a server whose routes hold every shipped stream matcher plus a route that stays undecided until 6000..8192 bytes have arrived; seed messages (and mutations) grown to 6-9 KiB arrive in segments of arbitrary sizes: the process survives every connection and every connection is finished.",
 		Assumptions: []string{
 			"the tls handler's parsing is crypto/tls itself and is not driven here",
 			"quic matcher inputs are fewer because a single evaluation may wait 100 ms for its internal listener",
@@ -60,14 +60,16 @@ func init() {
 }
 
 type target struct {
-	name    string
-	udp     bool
-	slow    bool
-	seeds   [][]byte
-	call    func(input []byte) (verdict string, err error)
-	again   func() // optional second evaluation on the connection of the last call
-	matcher string
-	config  string
+	name  string
+	udp   bool
+	slow  bool
+	seeds [][]byte
+	call  func(input []byte) (verdict string, err error)
+	again func() // optional second evaluation on the connection of the last call
+	// callFrom evaluates the input on a connection from the k-th of many client addresses (retention runs)
+	callFrom func(input []byte, k int) string
+	matcher  string
+	config   string
 }
 
 // Witness is what a replay file holds.
@@ -114,6 +116,16 @@ func buildTargets(c *fw.Ctx) []*target {
 					last = cx
 					v, err := m.EvalOn(cx)
 					return string(v), err
+				},
+				callFrom: func(in []byte, k int) string {
+					ip, port := fmt.Sprintf("198.51.%d.%d", (k>>8)&255, k&255), 1024+(k*7)%60000
+					o := mt.Opts{UDP: udp, Remote: vnet.TCPAddr(ip, port)}
+					if udp {
+						o.Remote = vnet.UDPAddr(ip, port)
+					}
+					cx, _ := mt.NewConn(in, o)
+					v, _ := m.EvalOn(cx)
+					return string(v)
 				},
 				// evaluated a second time on the same connection, as the routing loop does when a second route holds a
 				// matcher of the same kind or when matching is repeated after a prefetch (not part of the allocation
@@ -351,6 +363,61 @@ func run(c *fw.Ctx) {
 							m2[at] = orig ^ byte(v)
 							eval("trailer-resized+byte", m2)
 						}
+					}
+				}
+			}
+		}
+		// (v) what stays behind: the first seed that the target matches is evaluated 100000 times, every time on a new
+		// connection from another client address. What the process holds afterwards (live heap after two collections) must
+		// not have grown with the number of connections (a table keyed by client that nothing ever removes from, say).
+		if c.Mode == "inputs" && !t.slow && t.callFrom != nil && (!strings.Contains(t.name, "/c14#") || t.matcher == "openvpn") && c.Mine(ti) {
+			tried := 0
+			kSeq := 0
+			for _, sd := range t.seeds {
+				if tried >= 4 {
+					break
+				}
+				if t.callFrom(sd, 0) != "yes" {
+					continue
+				}
+				tried++
+				const rounds = 100000
+				live := func() uint64 {
+					runtime.GC()
+					runtime.GC()
+					runtime.ReadMemStats(&ms)
+					return ms.HeapAlloc
+				}
+				burst := func(n int) {
+					for w := 0; w < n; w++ {
+						kSeq++
+						_ = t.callFrom(sd, kSeq)
+					}
+				}
+				burst(5000) // warm-up: lazily built tables, pools
+				before := live()
+				burst(rounds)
+				after := live()
+				var grown int64
+				if after > before {
+					grown = int64(after - before)
+				}
+				c.ObsMax("retained_bytes_per_1000_connections_"+t.name, grown*1000/rounds)
+				c.Obs("retention_runs", 1)
+				if grown > 60*rounds {
+					// a table that grows with every connection grows again and again: two more bursts, each measured on its own
+					// (a single large reading can be the collector's timing)
+					b2 := live()
+					burst(rounds)
+					a2 := live()
+					b3 := live()
+					burst(rounds)
+					a3 := live()
+					if a2 > b2 && int64(a2-b2) > 60*rounds && a3 > b3 && int64(a3-b3) > 60*rounds {
+						w := &Witness{Target: t.name, Matcher: t.matcher, Config: t.config, UDP: t.udp, InputHex: hex.EncodeToString(sd), Kind: "retention", Detail: fmt.Sprintf("%d, %d and %d bytes retained after %d connections each", grown, a2-b2, a3-b3, rounds)}
+						c.Violation(fmt.Sprintf("C04 %s keeps memory for every connection it has matched", strings.SplitN(t.name, "@", 2)[0]),
+							fmt.Sprintf("target %s: after %d matched connections from different client addresses the live heap (after two collections) is %d bytes larger, after %d more %d bytes larger again, and again %d after the next %d: what is retained grows with the number of connections ever seen", t.name, rounds, grown, rounds, a2-b2, a3-b3, rounds), w)
+						break
 					}
 				}
 			}
